@@ -44,7 +44,13 @@ func (v *Raw) ToBytes() []byte {
 }
 
 func (v *Raw) FromBytes(d []byte) (err error) {
-	v.value = d
+	if d == nil {
+		v.value = nil
+		return nil
+	}
+
+	// The value must not change when the caller reuses the buffer the message was parsed from.
+	v.value = append(make([]byte, 0, len(d)), d...)
 	return nil
 }
 
@@ -266,7 +272,7 @@ func (v *Float) FromBytes(d []byte) (err error) {
 	}
 
 	v.valid = true
-	v.source = d
+	v.source = append(make([]byte, 0, len(d)), d...) // a copy: the caller may reuse its buffer
 	v.value, err = strconv.ParseFloat(string(d), 64)
 
 	return err
